@@ -59,6 +59,8 @@ fn file_round_trip(vals: &[i32]) -> (Vec<i32>, u8) {
 fn rt_signature(v: i32, got: Option<i32>, warn: u8) -> String {
     if v == i32::MIN {
         "round trip: fix_word 0x80000000 (-2048.0) is rejected by the reader".into()
+    } else if warn == 8 {
+        "round trip: panic".into()
     } else if warn != 0 {
         format!("round trip: reader warning {warn}")
     } else if got.is_none() {
@@ -72,14 +74,20 @@ fn rt_signature(v: i32, got: Option<i32>, warn: u8) -> String {
 fn check_values(vals: &[i32]) -> Vec<(i32, Option<i32>, u8)> {
     let mut bad = vec![];
     for chunk in vals.chunks(254) {
-        let (got, warn) = file_round_trip(chunk);
-        if warn == 0 && got == chunk {
-            continue;
+        if let Ok((got, 0)) = caught(|| file_round_trip(chunk)) {
+            if got == chunk {
+                continue;
+            }
         }
         for &v in chunk {
-            let (g, w) = file_round_trip(&[v]);
-            if w != 0 || g != [v] {
-                bad.push((v, g.first().copied(), w));
+            match caught(|| file_round_trip(&[v])) {
+                Ok((g, w)) => {
+                    if w != 0 || g != [v] {
+                        bad.push((v, g.first().copied(), w));
+                    }
+                }
+                // 8 = the printer or the reader panicked
+                Err(_) => bad.push((v, None, 8)),
             }
         }
     }
